@@ -376,6 +376,20 @@ def r7_relative_scheduling(ctx, cfg='A', rule='C02.R7'):
                             bad.append(show(tv)[:120])
             if ctx.floor('insertions in FutureEventSet::add', n, 1):
                 ctx.check(not bad, 'event-set-time-passed-through', 'the event set stores an event under exactly the instant it was given', h.where(), bad)
+    # ... and hands it out with exactly the instant it was stored under: between the container's value and the returned pair there is
+    # no coarser read-out, no numeric cast and no arithmetic (Duration -> f64 -> SimTime loses nanoseconds at large times)
+    from .C01 import LOSSY_TIME
+    fts = [h for k, h in P.fns.items() if k.endswith('FutureEventSet::fetch_next') and k.startswith('des::runtime::event::')]
+    if ctx.floor('FutureEventSet::fetch_next', len(fts), 1):
+        for h in fts:
+            ctx.touch(h)
+            bad = []
+            for b, t in ret_trees(h):
+                for x in walk(t):
+                    if (x[0] == 'call' and str(x[1]).split('::')[-1] in LOSSY_TIME) or (x[0] == 'cast' and str(x[1]) in ('IntToInt', 'FloatToInt', 'IntToFloat', 'FloatToFloat')) \
+                            or (x[0] == 'call' and str(x[1]).split('::')[-1] in ('from_secs_f64', 'from_secs_f32', 'from_millis', 'from_micros', 'from_secs')):
+                        bad.append(show(x)[:120])
+            ctx.check(not bad, 'event-set-time-handed-out', 'the event set hands an event out with exactly the instant it was stored under', h.where(), bad[:3])
 
 
 def run(ctx):
